@@ -505,9 +505,19 @@ class SkelEval(Eval):
             if it[0] == 'tok':
                 out.append(it[1])
             elif it[0] == 'hole':
-                out.append(self.tokens(self.ev(it[2])))
+                try:
+                    out.append(self.tokens(self.ev(it[2])))
+                except Unbound:
+                    if not self.lenient:
+                        raise
+                    out.append('#' + it[1])
             else:
-                out.append(self.render_rep(it))
+                try:
+                    out.append(self.render_rep(it))
+                except Unbound:
+                    if not self.lenient:
+                        raise
+                    out.append('#(..)*')
         return ' '.join(x for x in out if x != '')
 
     def render_rep(self, it):
